@@ -328,6 +328,9 @@ def run(ctx) -> None:
     from .common import Relabel
     ctx.rule("R13.4", "decorator use: every call gets a new manager built from the original (func, args, kwds), hence a fresh generator (R15.2, shared)")
     c15.r15_2(Relabel(ctx, "R13.4"))
+    ctx.rule("R13.5", "decorator use: the call runs the function inside one context and returns its result from inside it - also "
+                      "when the generator swallowed the function's exception (R15.1, shared)")
+    c15.r15_1(Relabel(ctx, "R13.5"))
     ctx.floor("cells", 42)
     ctx.floor("enter_cells", 3)
     # informational: the always-true identity test (differs from the stdlib only in an infeasible cell)
